@@ -125,6 +125,8 @@ def anchor(ctx):
         ctx.unproved(R, fid + '|mass', 'mass_compound() call not found', w); return
     MC = mcs[0].result[1] if mcs[0].result[0] == 'ok' else ('uf', 'unwrap', mcs[0].result)
     VC = T(dt) * T(FR) / T(MC)
+    if point:
+        plateau(ctx, b, an, point[0][0], last)
     for c, f in curve:
         wc = ctx.where(b, c.span)
         brk = f['speed_limit'][0] == 'abs'
@@ -142,6 +144,36 @@ def anchor(ctx):
         cfg = inv.cfg(b)
         ctx.check(cfg.dominates(G.block, c.block), R, k + '|guarded', 'pushed only after `brake force + resistance > 0` has been established (otherwise Err)',
                   'guard block %s does not dominate push block %s' % (G.block, c.block), wc)
+
+
+def all_decisions(pc):
+    """every (condition, outcome) of a path condition, path sets expanded recursively"""
+    out = []
+    for cnd, o in pc:
+        if cnd[0] == 'pathset':
+            for alt in cnd[2]:
+                out.extend(all_decisions(alt))
+        else:
+            out.append((cnd, o))
+    return out
+
+
+def plateau(ctx, b, an, point_push, last):
+    """the curve loop of one speed point is left (besides running off the start of the path) only when the last curve point
+    sits exactly AT the posted limit: the clipped entry point is followed by a second point at the posted limit (a one-step
+    plateau).  Leaving on <= instead gives the curve one step less — seeded change C03b showed the train then overshoots."""
+    R = 'C03-1.anchor'
+    decs = all_decisions(point_push.pc)
+    lim = last('speed_limit')
+    cmps = []
+    for cnd, o in decs:
+        if cnd[0] in ('eq', 'ne', 'le', 'lt', 'ge', 'gt') and lim in (cnd[1], cnd[2]):
+            other = cnd[2] if cnd[1] == lim else cnd[1]
+            if other[0] == 'abs' and other[1][0] == 'pre' and other[1][1][-1] == ('f', 'speed_limit'):
+                cmps.append((cnd[0], o != '0'))
+    ok = ('eq', True) in cmps and not any(op in ('le', 'lt', 'ge', 'gt') for op, _ in cmps)
+    ctx.check(ok, R, 'BrakingPoints::recalc|plateau', 'the curve of a speed point is complete only when its last point sits exactly at the posted limit (clipped entry point + one more step at the limit)',
+              'exit comparisons between the last curve point\'s limit and the posted limit: %s' % cmps, ctx.where(b, point_push.span))
 
 
 def rebuild(ctx):
